@@ -15,7 +15,10 @@ def main(tier: str) -> int:
         for lang, root, out in cfgs:
             for first in range(12):
                 conds.append(Cond(M, "tree", 900, 120, dict(C11_LANG=lang, C11_ROOT=root, C11_OUT=out, C11_K="2", C11_FIRST=str(first))))
-        rep.bounds = dict(types="<= 2 per tree", namespaces="R, R.a.b, R.<reserved word>", names="A, A_1", versions="0.0, 1.0",
+        for lang in ("c", "cpp"):
+            conds.append(Cond(M, "referenced_paths_are_generated_paths", 600, 120, dict(C11_LANG=lang, C11_OUT="/out")))
+        rep.bounds = dict(extension_overrides="none, .h, .gen.h, .a.b.c, .hpp for the real types of /verif/data/ns1 (include paths of vt.B vs generated paths)",
+                          types="<= 2 per tree", namespaces="R, R.a.b, R.<reserved word>", names="A, A_1", versions="0.0, 1.0",
                           configurations="(c, root r, /out), (c, root register, relative out), (py, root str, trailing slash)")
     else:
         cfgs = [(l, r, o) for l in ("c", "cpp", "py") for r in (("r", "register") if l != "py" else ("r", "str")) for o in ("/out", "out", "/out/")]
@@ -24,11 +27,14 @@ def main(tier: str) -> int:
                 conds.append(Cond(M, "tree", 3000, 120, dict(C11_LANG=lang, C11_ROOT=root, C11_OUT=out, C11_K="2", C11_FIRST=str(first))))
         for first in range(30):
             conds.append(Cond(M, "tree", 3000, 120, dict(C11_LANG="c", C11_ROOT="r", C11_OUT="/out", C11_K="2", C11_WIDE="1", C11_FIRST=str(first))))
+        for lang in ("c", "cpp"):
+            for out in ("/out", "out"):
+                conds.append(Cond(M, "referenced_paths_are_generated_paths", 1200, 120, dict(C11_LANG=lang, C11_OUT=out)))
         rep.bounds = dict(types="<= 2 per tree", namespaces="3 (wide: 5) incl. empty intermediate ones", names="2 (wide: 3)", versions="2",
                           configurations="c/cpp/py x plain or reserved root name x three output directory spellings; wide bound for c")
     rep.assumptions = ["duck-typed composite types (full_namespace, short_name, version, ...) stand for pydsdl types", "pathlib exists/resolve are stubbed: no file system",
                        "stropping of the chosen names is injective (no folded names in this alphabet)"]
-    rep.not_covered = ["unbounded names/versions, more than 2 types per tree, extension and namespace-stem overrides", "service types"]
+    rep.not_covered = ["unbounded names/versions, more than 2 types per tree, namespace-stem overrides; extension overrides beyond the five listed", "service types"]
     rep.extra["explanation"] = ("CrossHair/z3 over the real namespace tree builder with symbolic (namespace, name, version) selectors: an exhaustive case split "
                                 "three orders of magnitude slower than native enumeration of the same cases (honest note in DESIGN.md); kept because it runs the "
                                 "real builder over every assignment within the bound")
